@@ -717,8 +717,18 @@ def build_case(prog, live, result_log=None, runner=None):
     BIN = ContentType("application", "octet-stream")
 
     class WithDetails:
-        def __init__(self, ok, names, i):
+        def __init__(self, ok, names, i, pay=None):
             self.ok, self.names, self.i = ok, names, i
+            self.pay = pay or {}        # (C05) name -> {"chunks": [...]} | {"cell": c}: a binary / lazily evaluated mismatch detail
+
+        def detail(self, n):
+            p = self.pay.get(n)
+            if p is None:
+                return text_content("M%d/%s" % (self.i, n))
+            ct = ContentType("application", "octet-stream", {"id": "M%d/%s" % (self.i, n)})
+            if p.get("cell") is not None:
+                return Content(ct, lambda c=p["cell"]: [live.cells.get(c, b"")])
+            return Content(ct, lambda chunks=p["chunks"]: list(chunks))
 
         def __str__(self):
             return "WithDetails(%d)" % self.i
@@ -726,7 +736,7 @@ def build_case(prog, live, result_log=None, runner=None):
         def match(self, x):
             if self.ok:
                 return None
-            return Mismatch("mismatch MARK-%d-" % self.i, {n: text_content("M%d/%s" % (self.i, n)) for n in self.names})
+            return Mismatch("mismatch MARK-%d-" % self.i, {n: self.detail(n) for n in self.names})
 
     def make_exc(case, kind, i, text=""):
         msg = "MARK-%d-" % i + text
@@ -811,7 +821,8 @@ def build_case(prog, live, result_log=None, runner=None):
                 else:
                     do_raise(case, sub["kind"], sub["i"])
             except BaseException:
-                infos.append(sys.exc_info())
+                # (C05) "notb": an exc_info triple whose traceback object is None (collected elsewhere, stored, converted)
+                infos.append(sys.exc_info()[:2] + (None,) if sub.get("notb") else sys.exc_info())
         raise MultipleExceptions(*infos)
 
     def run_actions(case, acts):
@@ -824,7 +835,16 @@ def build_case(prog, live, result_log=None, runner=None):
                 live.log.append(("FS", f["i"]))
                 self.bufs = {}
                 for name, chunks in f["details"].items():
-                    if f.get("live"):
+                    if f.get("bare"):
+                        # (C05) exactly the drawn chunks (possibly none at all): the detail is identified by a
+                        # content-type parameter instead of a marker in its bytes
+                        ct = ContentType("application", "octet-stream", {"id": "FX%d/%s/" % (f["i"], name)})
+                        if f.get("live"):
+                            self.bufs[name] = list(chunks)
+                            self.addDetail(name, Content(ct, lambda name=name: self.bufs[name]))
+                        else:
+                            self.addDetail(name, Content(ct, lambda chunks=chunks: list(chunks)))
+                    elif f.get("live"):
                         # like a log-capturing fixture: the content hands out its own buffer, emptied at cleanUp
                         self.bufs[name] = [b"FX%d/" % f["i"] + name.encode("utf8") + b"/"] + list(chunks)
                         self.addDetail(name, Content(BIN, lambda name=name: self.bufs[name]))
@@ -923,7 +943,14 @@ def build_case(prog, live, result_log=None, runner=None):
             case.useFixture(make_fixture(a["spec"]))
         elif t == "detail":
             head = b"D%d/" % a["i"]
-            if a["cell"] is not None:
+            if a.get("bare"):
+                # (C05) no marker chunk: the content yields exactly the drawn chunks (possibly none) / the cell
+                if a["cell"] is not None:
+                    live.cells[a["cell"]] = b"".join(a["chunks"])
+                    case.addDetail(a["name"], Content(BIN, lambda c=a["cell"]: [live.cells[c]]))
+                else:
+                    case.addDetail(a["name"], Content(BIN, lambda chunks=a["chunks"]: list(chunks)))
+            elif a["cell"] is not None:
                 live.cells[a["cell"]] = b"".join(a["chunks"])
                 case.addDetail(a["name"], Content(BIN, lambda c=a["cell"], head=head: [head, live.cells[c]]))
             else:
@@ -932,9 +959,9 @@ def build_case(prog, live, result_log=None, runner=None):
             if a["cell"] in live.cells:
                 live.cells[a["cell"]] = a["data"]
         elif t == "expect":
-            case.expectThat(0, WithDetails(a["ok"], a["dnames"], a["i"]), a.get("message", ""), verbose=a.get("verbose", False))
+            case.expectThat(0, WithDetails(a["ok"], a["dnames"], a["i"], a.get("mpay")), a.get("message", ""), verbose=a.get("verbose", False))
         elif t == "assert":
-            case.assertThat(0, WithDetails(a["ok"], a["dnames"], a["i"]), a.get("message", ""), verbose=a.get("verbose", False))
+            case.assertThat(0, WithDetails(a["ok"], a["dnames"], a["i"], a.get("mpay")), a.get("message", ""), verbose=a.get("verbose", False))
         elif t == "force":
             case.force_failure = {"True": True, "1": 1, "yes": "yes"}[a.get("value", "True")]
         elif t == "onexc":
